@@ -5,7 +5,7 @@
    is an oracle (a field of [kern] or [user]); theorems proved for all oracles hold for every
    behaviour of that code.  The model is tied to the code by the bit-exact correspondence run
    (harness/corr/driver.py) and imports the generated stop tests (Generated/StopTests.v). *)
-From Coq Require Import List ZArith Bool String Floats.PrimFloat.
+From Coq Require Import List ZArith Bool String DecimalString Floats.PrimFloat.
 From LBFGSB Require Import Base.Res Model.SF Model.FloatVec Generated.StopTests.
 Import ListNotations.
 Open Scope Z_scope.
@@ -311,7 +311,31 @@ Section Driver.
       let s := classify gt s in
       ret (snapshot s (s_nit s)).
 
+  (* base.py get_bounds: argument validation (the bounds have the length of x0: validated inputs) *)
+  Definition nat_str (n : nat) : string := NilZero.string_of_uint (Nat.to_uint n).
+  Fixpoint count2 (p : float -> float -> bool) (a b : vec) : nat :=
+    match a, b with
+    | x :: a', y :: b' => (if p x y then 1 else 0) + count2 p a' b'
+    | _, _ => 0
+    end%nat.
+  Definition bounds_error : option exn :=
+    match x0 c with
+    | [] => Some ("ValueError", "x0 cannot be an empty vector!")
+    | _ =>
+      if (0 <? count2 ltb (ub c) (lb c))%nat then Some ("ValueError", "One of the lower bounds is greater than an upper bound.")
+      else
+        let k1 := count2 ltb (x0 c) (lb c) in
+        let k2 := count2 ltb (ub c) (x0 c) in
+        if (0 <? k1 + k2)%nat then
+          Some ("ValueError", "There are " ++ nat_str k1 ++ " values violating the lower bounds and " ++ nat_str k2 ++ " values violating the upper bounds!")
+        else None
+    end%string.
+
   Definition run : M ev result :=
-    let x := vclip (x0 c) (lb c) (ub c) in
-    if ck_ok x then run_checked x else raise ck_mismatch.
+    match bounds_error with
+    | Some e => raise e
+    | None =>
+      let x := vclip (x0 c) (lb c) (ub c) in
+      if ck_ok x then run_checked x else raise ck_mismatch
+    end.
 End Driver.
